@@ -1,13 +1,64 @@
 /-
 C20 — Texture containers yield the packed textures and fail cleanly when truncated.
+
+Model: `Mila.Containers` (`Model/Containers.lean`, readers of `src/ctpk.rs`, `src/bch.rs`, `src/cgfx.rs`,
+`src/tpl.rs` in a small reader language).  Specification: `Mila.Spec.Tex` (`Spec/TexContainers.lean`,
+decidable conformance predicates written from the format documentation).  `unpack p t` is the
+texture a reader must return for the packed texture `t`: its name, its dimensions, and the pixels
+the decoder makes of `t`'s own payload (`packed_pixels`; C19 says what those are).
+The tie model ↔ Rust is the `texc` correspondence stream.
 -/
-import MilaModel.Model.Containers
-import MilaModel.Spec.TexContainers
+import MilaModel.Lemmas.TexCtpk
 
 namespace Mila.Props.C20
-open Mila Mila.Containers
+open Mila Mila.Containers Mila.Spec.Tex
 
-/-- placeholder while the framework is brought up -/
-theorem placeholder : (1 : Nat) = 1 := rfl
+/-- A packed texture of the property's domain decodes (both profiles), and `unpack` carries
+exactly that decoding. -/
+theorem packed_pixels (p : Profile) (t : Tex) (h : valid3ds t = true) :
+    Pixel.decodePixelData p t.payload t.width t.height t.format = .ok (unpack p t).pixels := by
+  obtain ⟨_, b, hb⟩ := valid3ds_decodes p t h
+  simp [unpack, pixelsOf, hb]
+
+private theorem reader_of_full {prog : Prog (List Raw)} {f : Buf} {raws : List Raw} {sf : St} {want : List Texture}
+    (h : run prog f ⟨0, [], 0⟩ = .ok (raws, sf)) (ha : assemble sf.names.reverse raws = want) :
+    runReader prog f = .ok want := by
+  simp [runReader, h, ha]
+
+private theorem reader_prefix {prog : Prog (List Raw)} {f : Buf} {raws : List Raw} {sf : St} (k : Nat)
+    (hk : k ≤ f.size) (h : run prog f ⟨0, [], 0⟩ = .ok (raws, sf)) :
+    runReader prog (f.extract 0 k) ≠ .panic ∧ (k < sf.hi → ∃ e, runReader prog (f.extract 0 k) = .err e) := by
+  obtain ⟨h1, h2⟩ := prefix_outcome prog f k hk raws sf h
+  simp only [pre] at h1 h2
+  constructor
+  · intro hp
+    apply h1
+    simp only [runReader] at hp
+    split at hp <;> simp_all
+  · intro hlt
+    obtain ⟨e, he⟩ := h2 hlt
+    exact ⟨e, by simp [runReader, he]⟩
+
+/-- **CTPK.** A conforming file is read as the packed textures: same number, same order, the
+stored names as decoded by Shift-JIS, the stored dimensions, the decoding of each payload. -/
+theorem ctpk_read_conforming (p : Profile) (f : Buf) (texs : List Tex)
+    (hc : ConformsCtpk (decodeName .sjis) f texs = true) :
+    ctpkRead p f = .ok (texs.map (unpack p)) := by
+  obtain ⟨raws, sf, h, ha, _⟩ := ctpk_full p f texs hc
+  exact reader_of_full h ha
+
+/-- **CTPK, truncation.** Every strict prefix of a conforming file is read without a panic, and
+with an error whenever the cut removes part of a texture payload. -/
+theorem ctpk_prefix_safe (p : Profile) (f : Buf) (texs : List Tex)
+    (hc : ConformsCtpk (decodeName .sjis) f texs = true) (k : Nat) (hk : k < f.size) :
+    ctpkRead p (f.extract 0 k) ≠ .panic ∧
+    ∀ i t, texs[i]? = some t → cuts k (ctpkPayloadAt f i) t.payload.size = true →
+      ∃ e, ctpkRead p (f.extract 0 k) = .err e := by
+  obtain ⟨raws, sf, h, _, hhi⟩ := ctpk_full p f texs hc
+  obtain ⟨h1, h2⟩ := reader_prefix k (by omega) h
+  refine ⟨h1, fun i t ht hcut => h2 ?_⟩
+  have := hhi i t ht
+  simp only [cuts, Bool.and_eq_true, decide_eq_true_eq] at hcut
+  omega
 
 end Mila.Props.C20
